@@ -192,7 +192,7 @@ CHECKS = {
     },
     "C04": {
         "lean": ["DrummerVerif.Props.C04", "DrummerVerif.Props.WitnessDb"],
-        "streams": [dbstream("c04", 250, 4000, ["res", "img", "states"]), dbstream("general", 150, 2000, ["res", "img", "states"])],
+        "streams": [dbstream("c04", 250, 4000, ["res", "img", "states"], replicas=True), dbstream("general", 150, 2000, ["res", "img", "states"])],
         "rule": RULE_DB % "c04 (report heavy) and general",
         "assumptions": DB_ASSUME,
     },
